@@ -13,3 +13,9 @@ func init() {
 	stlDecode = astisub.VerifSTLDecode
 	stlRow = astisub.VerifSTLRow
 }
+
+func init() {
+	genSTLDoc = func(r *rng) []byte {
+		return genSTLGT(r, stlSymbolBytes(), false).bytes()
+	}
+}
